@@ -614,6 +614,47 @@ func c14Routers(c *cx) {
 			}
 		}
 		c.r.Floor(id, "handler lookups in forChildren", n, 4)
+		// the payload loop runs to the end: one payload's handler failing (its
+		// error is collected) does not keep the payloads after it from their
+		// handlers. No return and no break leaves the iterator loop.
+		fc.WalkBody(func(nd ast.Node) bool {
+			fs, ok := nd.(*ast.ForStmt)
+			if !ok || fs.Cond == nil || fc.ContainsCall(fs.Cond, "mellium.im/xmlstream.Iter.Next") == nil {
+				return true
+			}
+			var early ast.Node
+			ast.Inspect(fs.Body, func(x ast.Node) bool {
+				switch y := x.(type) {
+				case *ast.FuncLit:
+					return false
+				case *ast.ReturnStmt:
+					if early == nil {
+						early = y
+					}
+				case *ast.BranchStmt:
+					if y.Tok == token.BREAK || y.Tok == token.GOTO {
+						// a break that leaves this loop (not an inner switch/select/loop)
+						var target ast.Node
+						for p := g.Parent(y); p != nil && target == nil; p = g.Parent(p) {
+							switch p.(type) {
+							case *ast.ForStmt, *ast.RangeStmt, *ast.SwitchStmt, *ast.TypeSwitchStmt, *ast.SelectStmt:
+								target = p
+							}
+						}
+						if (y.Label != nil || target == ast.Node(fs)) && early == nil {
+							early = y
+						}
+					}
+				}
+				return true
+			})
+			why := ""
+			if early != nil {
+				why = "the statement at " + c.p.Pos(early.Pos()) + " leaves the payload loop: the payloads after this one are not dispatched"
+			}
+			c.r.Check(id, fc, "payload loop runs to the end", "O: no return, break or goto leaves the loop over the stanza's child elements", fs.Pos(), early == nil, why)
+			return true
+		})
 		// every stanza reaches a handler lookup: a stanza without child
 		// elements (no children at all, or only white space between the tags of
 		// formatted XML) goes to the type wildcard. For each stanza kind, every
